@@ -45,7 +45,7 @@ SegsMatch(segs, obs) ==
 
 TInit == /\ tid \in 1..Len(Traces)
          /\ l = 1
-         /\ st = Fresh
+         /\ st = [Fresh EXCEPT !.p = P(Traces[tid].p0.kin, Traces[tid].p0.kk)]   \* the model's values at construction
          /\ h = <<>>
 
 TStep == /\ l <= Len(Traces[tid].ev)
@@ -54,7 +54,7 @@ TStep == /\ l <= Len(Traces[tid].ev)
             IN /\ r.legal
                /\ r.raised = e.raised
                /\ SegsMatch(r.st.segs, e.segs)
-               /\ (e.err <=> r.st.segs = <<>>)
+               /\ (e.err => r.st.segs = <<>>)          \* get_result() may only be a failure value when there is no segment
                /\ st' = r.st
          /\ l' = l + 1
          /\ UNCHANGED <<tid, h>>
